@@ -370,7 +370,7 @@ def rule_r7_union_extent(ctx: Ctx) -> None:
     init = u.methods.get("__init__")
     if init is None:
         raise AnalysisError("UnionType.__init__ missing")
-    stmts, chain = flatten_init(repo, u, inline_props=False)
+    stmts, chain = flatten_init(repo, u, inline_props=False, node_of=ctx.inl)
     # only the union's own part matters for the arity; paths of the own constructor
     paths = paths_of(init.node)
     res = evaluate_region(
